@@ -244,6 +244,18 @@ func replayDir(prop string) string {
 	return d
 }
 
+// Record puts a violation on record (replay file + stats file) without failing the test: used when the
+// test process may not survive what follows (e.g. goroutines that cannot be freed from a bubble).
+func (s *Stats) Record(test string, c any, v *Violation) {
+	if v == nil {
+		return
+	}
+	if _, ok := IsKnown(s.Property, v.Sig); ok {
+		return
+	}
+	s.record(test, c, v)
+}
+
 // Report handles a verdict: nil -> nothing. A known finding is counted and true is returned
 // (the caller should abandon the case but not fail). Otherwise the case is written to the
 // replay directory (overwriting the file of this test+shard: rapid re-runs the shrunk case last,
@@ -258,6 +270,12 @@ func (s *Stats) Report(t TB, test string, c any, v *Violation) (knownHit bool) {
 		s.mu.Unlock()
 		return true
 	}
+	path := s.record(test, c, v)
+	t.Fatalf("VERIF-VIOLATION property=%s test=%s sig=%s replay=%s :: %s", s.Property, test, v.Sig, path, v.Msg)
+	return false
+}
+
+func (s *Stats) record(test string, c any, v *Violation) string {
 	raw, err := json.Marshal(c)
 	if err != nil {
 		raw, _ = json.Marshal(fmt.Sprintf("%#v", c))
@@ -287,8 +305,7 @@ func (s *Stats) Report(t TB, test string, c any, v *Violation) (knownHit bool) {
 	}
 	s.mu.Unlock()
 	Flush()
-	t.Fatalf("VERIF-VIOLATION property=%s test=%s sig=%s replay=%s :: %s", s.Property, test, v.Sig, path, v.Msg)
-	return false
+	return path
 }
 
 // LoadReplay reads a replay file and decodes its case into c.
